@@ -318,23 +318,63 @@ def refineLoop (be : Backend) (st : KKTSettings K) (slv : SolveFn K n p m) (ku :
           if 1 < rate then ref else sol
         else refineLoop be st slv ku rx ry rz rhsNorm fuel ref err' errNorm'
 
-/-- `KKT::solve`.  `rhs` has the layout of `Step`; `old` supplies the tails of the box outputs. -/
-def KKT.solve (be : Backend) (st : KKTSettings K) (d : Data K n p m)
-    (k : KKT K n p m) (r old : Step K n p m) (refine : Bool) : Option (Step K n p m) :=
-  let deltaInv : K := 1 / k.delta
+/-- `zbar`: the z-row right-hand side after eliminating the slack (`r_z - Z⁻¹ r_s`), divided by `W = S Z⁻¹ + δ`
+    when the z-block itself is eliminated -/
+def zbarOf (be : Backend) (k : KKT K n p m) (r : Step K n p m) : Vec K m :=
   let w : Vec K m := Vector.ofFn fun i => k.s[i] * k.zinv[i] + k.delta
   let zbar0 : Vec K m := Vector.ofFn fun i => r.z[i] - k.zinv[i] * r.s[i]
-  let zbar : Vec K m := if be.keepZ then zbar0 else Vector.ofFn fun i => zbar0[i] / w[i]
-  let gt := Mat.mulVec d.GT zbar
+  if be.keepZ then zbar0 else Vector.ofFn fun i => zbar0[i] / w[i]
+
+/-- x-row of the reduced right-hand side: eliminated blocks folded in -/
+def rxOf (be : Backend) (d : Data K n p m) (k : KKT K n p m) (r : Step K n p m) : Vec K n :=
+  let deltaInv : K := 1 / k.delta
+  let gt := Mat.mulVec d.GT (zbarOf be k r)
   let at' := Mat.mulVec d.AT r.y
   let bl := d.lb.scatter fun i =>
     d.lb.sc[i] * (r.z_lb[i] - k.zinv_lb[i] * r.s_lb[i]) / (k.s_lb[i] * k.zinv_lb[i] + k.delta)
   let bu := d.ub.scatter fun i =>
     d.ub.sc[i] * (r.z_ub[i] - k.zinv_ub[i] * r.s_ub[i]) / (k.s_ub[i] * k.zinv_ub[i] + k.delta)
-  let rx : Vec K n := Vector.ofFn fun j =>
+  Vector.ofFn fun j =>
     r.x[j] + (if be.keepZ then 0 else gt[j]) + (if be.keepY then 0 else deltaInv * at'[j]) - bl[j] + bu[j]
+
+/-- recovery of the eliminated variables from a solution `sol` of the reduced system -/
+def recover (be : Backend) (d : Data K n p m) (k : KKT K n p m) (r old : Step K n p m)
+    (sol : Vec K n × Vec K p × Vec K m) : Step K n p m :=
+  let deltaInv : K := 1 / k.delta
+  let w : Vec K m := Vector.ofFn fun i => k.s[i] * k.zinv[i] + k.delta
+  let zbar := zbarOf be k r
+  let dx := sol.1
+  let ax := Mat.mulVecT d.AT dx
+  let gx := Mat.mulVecT d.GT dx
+  let dy : Vec K p := if be.keepY then sol.2.1 else Vector.ofFn fun i => deltaInv * ax[i] - deltaInv * r.y[i]
+  let dz : Vec K m := if be.keepZ then sol.2.2 else Vector.ofFn fun i => gx[i] / w[i] - zbar[i]
+  let dz_lb := d.lb.headUpd old.z_lb fun i =>
+    if be.isDense then
+      (-d.lb.sc[i] * dx[d.lb.idx[i]] - r.z_lb[i] + k.zinv_lb[i] * r.s_lb[i]) / (k.s_lb[i] * k.zinv_lb[i] + k.delta)
+    else
+      ((-d.lb.sc[i] * dx[d.lb.idx[i]] - r.z_lb[i]) / k.zinv_lb[i] + r.s_lb[i]) / (k.s_lb[i] + k.delta / k.zinv_lb[i])
+  let dz_ub := d.ub.headUpd old.z_ub fun i =>
+    if be.isDense then
+      (d.ub.sc[i] * dx[d.ub.idx[i]] - r.z_ub[i] + k.zinv_ub[i] * r.s_ub[i]) / (k.s_ub[i] * k.zinv_ub[i] + k.delta)
+    else
+      ((d.ub.sc[i] * dx[d.ub.idx[i]] - r.z_ub[i]) / k.zinv_ub[i] + r.s_ub[i]) / (k.s_ub[i] + k.delta / k.zinv_ub[i])
+  let ds : Vec K m := Vector.ofFn fun i =>
+    if be.isDense then k.zinv[i] * (r.s[i] - k.s[i] * dz[i])
+    else k.s[i] * k.zinv[i] * (r.s[i] / k.s[i] - dz[i])
+  let ds_lb := d.lb.headUpd old.s_lb fun i =>
+    if be.isDense then k.zinv_lb[i] * (r.s_lb[i] - k.s_lb[i] * dz_lb[i])
+    else k.s_lb[i] * k.zinv_lb[i] * (r.s_lb[i] / k.s_lb[i] - dz_lb[i])
+  let ds_ub := d.ub.headUpd old.s_ub fun i =>
+    if be.isDense then k.zinv_ub[i] * (r.s_ub[i] - k.s_ub[i] * dz_ub[i])
+    else k.s_ub[i] * k.zinv_ub[i] * (r.s_ub[i] / k.s_ub[i] - dz_ub[i])
+  { x := dx, y := dy, z := dz, z_lb := dz_lb, z_ub := dz_ub, s := ds, s_lb := ds_lb, s_ub := ds_ub }
+
+/-- `KKT::solve`.  `rhs` has the layout of `Step`; `old` supplies the tails of the box outputs. -/
+def KKT.solve (be : Backend) (st : KKTSettings K) (d : Data K n p m)
+    (k : KKT K n p m) (r old : Step K n p m) (refine : Bool) : Option (Step K n p m) :=
+  let rx := rxOf be d k r
   let ry := r.y
-  let rz := zbar
+  let rz := zbarOf be k r
   match k.fsol with
   | none => none
   | some slv =>
@@ -346,31 +386,7 @@ def KKT.solve (be : Backend) (st : KKTSettings K) (d : Data K n p m)
         let errNorm := redNorm be err.1 err.2.1 err.2.2
         refineLoop be st slv k.k rx ry rz rhsNorm st.refMaxIter sol0 err errNorm
       else sol0
-    let dx := sol.1
-    let ax := Mat.mulVecT d.AT dx
-    let gx := Mat.mulVecT d.GT dx
-    let dy : Vec K p := if be.keepY then sol.2.1 else Vector.ofFn fun i => deltaInv * ax[i] - deltaInv * r.y[i]
-    let dz : Vec K m := if be.keepZ then sol.2.2 else Vector.ofFn fun i => gx[i] / w[i] - zbar[i]
-    let dz_lb := d.lb.headUpd old.z_lb fun i =>
-      if be.isDense then
-        (-d.lb.sc[i] * dx[d.lb.idx[i]] - r.z_lb[i] + k.zinv_lb[i] * r.s_lb[i]) / (k.s_lb[i] * k.zinv_lb[i] + k.delta)
-      else
-        ((-d.lb.sc[i] * dx[d.lb.idx[i]] - r.z_lb[i]) / k.zinv_lb[i] + r.s_lb[i]) / (k.s_lb[i] + k.delta / k.zinv_lb[i])
-    let dz_ub := d.ub.headUpd old.z_ub fun i =>
-      if be.isDense then
-        (d.ub.sc[i] * dx[d.ub.idx[i]] - r.z_ub[i] + k.zinv_ub[i] * r.s_ub[i]) / (k.s_ub[i] * k.zinv_ub[i] + k.delta)
-      else
-        ((d.ub.sc[i] * dx[d.ub.idx[i]] - r.z_ub[i]) / k.zinv_ub[i] + r.s_ub[i]) / (k.s_ub[i] + k.delta / k.zinv_ub[i])
-    let ds : Vec K m := Vector.ofFn fun i =>
-      if be.isDense then k.zinv[i] * (r.s[i] - k.s[i] * dz[i])
-      else k.s[i] * k.zinv[i] * (r.s[i] / k.s[i] - dz[i])
-    let ds_lb := d.lb.headUpd old.s_lb fun i =>
-      if be.isDense then k.zinv_lb[i] * (r.s_lb[i] - k.s_lb[i] * dz_lb[i])
-      else k.s_lb[i] * k.zinv_lb[i] * (r.s_lb[i] / k.s_lb[i] - dz_lb[i])
-    let ds_ub := d.ub.headUpd old.s_ub fun i =>
-      if be.isDense then k.zinv_ub[i] * (r.s_ub[i] - k.s_ub[i] * dz_ub[i])
-      else k.s_ub[i] * k.zinv_ub[i] * (r.s_ub[i] / k.s_ub[i] - dz_ub[i])
-    some { x := dx, y := dy, z := dz, z_lb := dz_lb, z_ub := dz_ub, s := ds, s_lb := ds_lb, s_ub := ds_ub }
+    some (recover be d k r old sol)
 
 end ops
 
